@@ -479,6 +479,7 @@ fn main() {
                 let renounce_from = if r.gen_bool(0.4) { r.gen_range(len / 3..len.max(1)) } else { len };
                 for i in 0..len {
                     time_passes(&sys.e, &mut r, 3000);
+                    time_passes_long(&sys.e, &mut r);
                     let kind = *pick(
                         &mut r,
                         &[
